@@ -145,6 +145,11 @@ class Target:
         with open(cfile, 'w') as fh:
             fh.write('\n'.join(out) + '\n')
         self.cfile = cfile
+        # a callee under contract that the current source no longer calls has no symbol in the goto binary and DFCC
+        # would abort on its --replace-call-with-contract: replace only callees that are called (recorded in the evidence)
+        self.replace_used = [g for g in self.replace if any(re.search(r'\b' + re.escape(g) + r'\s*\(', t) for t in texts + [harness])
+                             or any(g == f.cname for f in self.fns)]
+        info['contracts_not_called'] = [g for g in self.replace if g not in self.replace_used]
         self.info = info
         return cfile
 
@@ -178,7 +183,7 @@ class Target:
         cmd = ['goto-instrument', '--dfcc', 'main']
         if self.enforce:
             cmd += ['--enforce-contract', self.enforce]
-        for g in self.replace:
+        for g in self.replace_used:
             cmd += ['--replace-call-with-contract', g]
         cmd += ['--apply-loop-contracts', gb, gb2]
         rc, so, se, dt = run(cmd, 300)
@@ -189,7 +194,7 @@ class Target:
         cmd = ['cbmc', gb2] + self.checks + ['--json-ui', '--trace', '--no-standard-checks'] + self.cbmc_flags
         res['checker_cmd'] = ' '.join(['goto-cc … |', 'goto-instrument --dfcc main'] +
                                       ([f'--enforce-contract {self.enforce}'] if self.enforce else []) +
-                                      [f'--replace-call-with-contract {g}' for g in self.replace] +
+                                      [f'--replace-call-with-contract {g}' for g in self.replace_used] +
                                       ['--apply-loop-contracts |'] + ['cbmc'] + self.checks + self.cbmc_flags)
         rc, so, se, dt = run(cmd, self.timeout)
         res['seconds']['cbmc'] = dt
